@@ -53,6 +53,13 @@ def gen(rng, ctx):
                     keep.add(p)
                     st.append(p)
         cd = {"name": cd["name"], "nodes": [[n, t, n == o] for n, t, _ in cd["nodes"] if n in keep], "edges": [e for e in cd["edges"] if e[0] in keep and e[1] in keep], "bbs": {}}
+        if rng.random() < 0.25:
+            # primary inputs outside the cone of the output (unused, or feeding logic that is not an output)
+            cd["nodes"].append(["spare_in", "input", False])
+            if rng.random() < 0.5:
+                cd["nodes"] += [["spare_in2", "input", False], ["spare_g", "and", False]]
+                cd["edges"] += [["spare_in", "spare_g"], ["spare_in2", "spare_g"]]
+            shape += "+spare_input"
     if rng.random() < 0.1:
         # a node already carrying the name limit_fanin would give its helper gate (e.g. the circuit came out of limit_fanin(c, 3))
         preds = G.cd_preds(cd)
@@ -126,6 +133,8 @@ def check(case, ctx):
     ctx.count(f"shape:{case['shape'].split('+')[0]}")
     if "hostile" in case["shape"]:
         ctx.count("hostile_helper_names")
+    if "spare_input" in case["shape"]:
+        ctx.count("input_outside_the_output_cone")
     ctx.count(f"supercircuit:{case['supercircuit']}")
     captured = []
     orig = cg.tx.limit_fanin
@@ -298,5 +307,5 @@ def check(case, ctx):
 
 
 def gates(counters, table, tier):
-    need = ["hostile_helper_names", "supercircuit:True", "supercircuit:False", "has_reconvergence", "internal_limit_fanin_observed", "supergates:1", "supergates:2", "supergates:3", "cmp:supercircuit"]
+    need = ["hostile_helper_names", "supercircuit:True", "supercircuit:False", "has_reconvergence", "internal_limit_fanin_observed", "supergates:1", "supergates:2", "supergates:3", "cmp:supercircuit", "input_outside_the_output_cone"]
     return [f"{k} seen {counters.get(k, 0)} times" for k in need if counters.get(k, 0) < 5] + [f"{k} never seen" for k in ("shape:deep_chain", "shape:deep_ladder") if not counters.get(k)]
